@@ -15,26 +15,26 @@ import (
 // functions whose inputs are reflect.Type / struct tags only: their failures
 // are plan failures, decided for every repository type by C01.P1.
 var planTimeFuncs = map[string]string{
-	"ttlv.decodeFunc":                      "dispatch on reflect.Type only",
-	"ttlv.decodeFuncFor":                   "cache lookup by reflect.Type",
-	"ttlv.buidStructDecodeFunc":            "struct plan from field types and tags",
-	"ttlv.getFieldInfo":                    "struct tag",
-	"ttlv.parseFieldInfo":                  "struct tag",
-	"ttlv.getFieldTag":                     "struct tag / field name / field type",
-	"ttlv.parseVersionRange":               "struct tag",
-	"ttlv.parseVersion":                    "struct tag",
-	"ttlv.applySetVersionDecode":           "field type",
-	"ttlv.applyOmitEmptyDecode":            "wrapper construction",
-	"ttlv.applyVersionRangeDecode":         "wrapper construction",
-	"ttlv.buildPointerDecodeFunc":          "element type",
-	"ttlv.buildSliceDecodeFunc":            "element type",
-	"ttlv.buildTagDecodableDecodeFunc":     "type",
-	"ttlv.buildPtrTagDecodableDecodeFunc":  "type",
-	"ttlv.buildEnumDecodeFunc":             "type",
-	"ttlv.buildBitmaskDecodeFunc":          "type",
-	"ttlv.getTagForType":                   "reflect.Type",
-	"ttlv.getTagForValue":                  "reflect.Type of the destination",
-	"ttlv.getTagByName":                    "registry lookup",
+	"ttlv.decodeFunc":                     "dispatch on reflect.Type only",
+	"ttlv.decodeFuncFor":                  "cache lookup by reflect.Type",
+	"ttlv.buidStructDecodeFunc":           "struct plan from field types and tags",
+	"ttlv.getFieldInfo":                   "struct tag",
+	"ttlv.parseFieldInfo":                 "struct tag",
+	"ttlv.getFieldTag":                    "struct tag / field name / field type",
+	"ttlv.parseVersionRange":              "struct tag",
+	"ttlv.parseVersion":                   "struct tag",
+	"ttlv.applySetVersionDecode":          "field type",
+	"ttlv.applyOmitEmptyDecode":           "wrapper construction",
+	"ttlv.applyVersionRangeDecode":        "wrapper construction",
+	"ttlv.buildPointerDecodeFunc":         "element type",
+	"ttlv.buildSliceDecodeFunc":           "element type",
+	"ttlv.buildTagDecodableDecodeFunc":    "type",
+	"ttlv.buildPtrTagDecodableDecodeFunc": "type",
+	"ttlv.buildEnumDecodeFunc":            "type",
+	"ttlv.buildBitmaskDecodeFunc":         "type",
+	"ttlv.getTagForType":                  "reflect.Type",
+	"ttlv.getTagForValue":                 "reflect.Type of the destination",
+	"ttlv.getTagByName":                   "registry lookup",
 }
 
 type c02ctx struct {
@@ -146,17 +146,20 @@ func (c *c02ctx) r2Asserts() {
 			src := stripConv(ta.X)
 			// (a) value loaded from a sync.Map that only ever stores that func type
 			if cl, ok := ta.X.(*ssa.Extract); ok {
-				if call, ok := cl.Tuple.(*ssa.Call); ok && callID(&call.Call).is("sync", "Map", "Load") {
+				if call, ok := cl.Tuple.(*ssa.Call); ok && cl.Index == 0 && (callID(&call.Call).is("sync", "Map", "Load") || callID(&call.Call).is("sync", "Map", "LoadOrStore") || callID(&call.Call).is("sync", "Map", "Swap")) {
 					if g := globalOf(call.Call.Args[0]); g != nil {
 						okAll, n := true, 0
 						for _, f2 := range p.OwnFuncs() {
 							allInstrs(f2, func(in2 ssa.Instruction) {
 								c2, ok := in2.(*ssa.Call)
-								if !ok || !callID(&c2.Call).is("sync", "Map", "Store") || globalOf(c2.Call.Args[0]) != g {
+								if !ok || len(c2.Call.Args) == 0 || globalOf(c2.Call.Args[0]) != g {
+									return
+								}
+								if id2 := callID(&c2.Call); !(id2.pkg == "sync" && id2.recv == "Map" && (id2.name == "Store" || id2.name == "LoadOrStore" || id2.name == "Swap" || id2.name == "CompareAndSwap")) {
 									return
 								}
 								n++
-								if mi, ok := c2.Call.Args[2].(*ssa.MakeInterface); !ok || !types.Identical(mi.X.Type(), ta.AssertedType) {
+								if mi, ok := c2.Call.Args[len(c2.Call.Args)-1].(*ssa.MakeInterface); !ok || !types.Identical(mi.X.Type(), ta.AssertedType) {
 									okAll = false
 								}
 							})
@@ -501,10 +504,10 @@ func (c *c02ctx) r3Typestate() {
 
 // validateFacts: per TTLV type constant, the length facts validate() establishes on its success paths.
 type lenFact struct {
-	eq     int64 // len == eq (or -1)
-	min    int64 // len >= min
-	mod    int64 // len % mod == 0 (0 = none)
-	hdr8   bool  // header length checked first
+	eq   int64 // len == eq (or -1)
+	min  int64 // len >= min
+	mod  int64 // len % mod == 0 (0 = none)
+	hdr8 bool  // header length checked first
 }
 
 func (c *c02ctx) validateFacts() (map[int64]lenFact, []string) {
